@@ -413,6 +413,103 @@ fn ctxt_id() -> usize {
                 .map(|parts| parts.split('.').count() == 3)
                 .unwrap_or(false);
             if own {""")]),
+ # ---- round 5: equivalent spellings of the constructs the round-5 rules read --------------------------------------------
+ ("B.hook_complete_two_lets", ["C05"], "src/macro_hooks.rs", [
+   ("""        let mut completion = span::completion::Default::new(self.rt.emitter(), self.rt.ctxt())
+            .with_tpl(self.tpl.by_ref());
+
+        if let Some(lvl) = self.lvl.and_then(|lvl| lvl.capture()) {
+            completion = completion.with_lvl(lvl);
+        }
+
+        if let Some(lvl) = self.panic_lvl.and_then(|lvl| lvl.capture()) {
+            completion = completion.with_panic_lvl(lvl);
+        }
+""", """        let completion = span::completion::Default::new(self.rt.emitter(), self.rt.ctxt())
+            .with_tpl(self.tpl.by_ref());
+
+        let panic_lvl = self.panic_lvl.and_then(|lvl| lvl.capture());
+        let lvl = self.lvl.and_then(|lvl| lvl.capture());
+
+        let completion = match lvl {
+            Some(lvl) => completion.with_lvl(lvl),
+            None => completion,
+        };
+
+        let completion = match panic_lvl {
+            Some(lvl) => completion.with_panic_lvl(lvl),
+            None => completion,
+        };
+""")]),
+ ("B.kind_from_value_early_typed", ["C14", "C15"], "src/kind.rs", [
+   ("""        value
+            .downcast_ref::<Kind>()
+            .copied()
+            .or_else(|| value.parse())""", """        if let Some(kind) = value.downcast_ref::<Kind>() {
+            return Some(*kind);
+        }
+
+        value.parse()""")]),
+ ("B.otlp_flush_loop", ["C07", "C08", "C12"], "emitter/otlp/src/client.rs", [
+   ("""        if let Some((_, ref sender)) = self.otlp_logs {
+            if !emit_batcher::blocking_flush(sender, timeout.saturating_sub(start.elapsed())) {
+                return false;
+            }
+        }
+
+        if let Some((_, ref sender)) = self.otlp_traces {
+            if !emit_batcher::blocking_flush(sender, timeout.saturating_sub(start.elapsed())) {
+                return false;
+            }
+        }
+
+        if let Some((_, ref sender)) = self.otlp_metrics {
+            if !emit_batcher::blocking_flush(sender, timeout.saturating_sub(start.elapsed())) {
+                return false;
+            }
+        }
+
+        true""", """        let logs = self.otlp_logs.as_ref().map(|(_, sender)| sender);
+        let traces = self.otlp_traces.as_ref().map(|(_, sender)| sender);
+        let metrics = self.otlp_metrics.as_ref().map(|(_, sender)| sender);
+
+        for sender in [logs, traces, metrics].into_iter().flatten() {
+            if !emit_batcher::blocking_flush(sender, timeout.saturating_sub(start.elapsed())) {
+                return false;
+            }
+        }
+
+        true""")]),
+ ("B.tokio_spawn_named_runtime", ["C08"], "batcher/src/tokio.rs", [
+   ("""            tokio::runtime::Builder::new_current_thread()
+                .enable_all()
+                .build()
+                .unwrap()
+                .block_on(receive);""", """            let rt = tokio::runtime::Builder::new_current_thread()
+                .enable_all()
+                .build()
+                .unwrap();
+
+            let _ = rt.block_on(receive);""")]),
+ ("B.from_parts_after_february_local", ["C15"], "core/src/timestamp.rs", [
+   ("        if is_leap && parts.months > 2 {", "        let after_february = parts.months >= 3;\n        if after_february && is_leap {")]),
+ ("B.fmt_args_flags_local", ["C16"], "macros/src/fmt.rs", [
+   ("""            return Ok(Args {
+                flags: flags.value(),
+            });""", """            let flags = flags.value();
+
+            return Ok(Args { flags });""")]),
+ ("B.eval_hooks_rename_accumulator", ["C19"], "macros/src/hook.rs", [
+   ("    let mut expr = quote!(#expr);", "    let mut tokens = quote!(#expr);"),
+   ("                    expr = eval(quote!(#args), expr)?;", "                    tokens = eval(quote!(#args), tokens)?;"),
+   ("    Ok(quote_spanned!(expr.span()=> #(#unapplied)* #expr))", "    Ok(quote_spanned!(tokens.span()=> #(#unapplied)* #tokens))")]),
+ ("B.shared_runtime_let", ["C01", "C20"], "core/src/runtime.rs", [
+   ("""pub fn shared() -> &'static AmbientRuntime<'static> {
+    SHARED.get()
+}""", """pub fn shared() -> &'static AmbientRuntime<'static> {
+    let rt = SHARED.get();
+    rt
+}""")]),
 ]
 
 RENAMES = [
